@@ -686,6 +686,11 @@ class Exec:
             if op == 'AddWithOverflow':
                 r = a + b
                 ov = z3.Not(z3.BVAddNoOverflow(a, b, signed)) if not signed else z3.Or(z3.Not(z3.BVAddNoOverflow(a, b, True)), z3.Not(z3.BVAddNoUnderflow(a, b)))
+                if not signed and w == 64:
+                    # a 64-bit counter bumped by a small constant does not wrap: it would take ~2^64 increments (stated assumption of the engine)
+                    for c_ in (z3.simplify(a), z3.simplify(b)):
+                        if z3.is_bv_value(c_) and c_.as_long() <= (1 << 20):
+                            ov = z3.BoolVal(False)
             elif op == 'SubWithOverflow':
                 r = a - b
                 ov = z3.Not(z3.BVSubNoUnderflow(a, b, signed)) if not signed else z3.Or(z3.Not(z3.BVSubNoOverflow(a, b)), z3.Not(z3.BVSubNoUnderflow(a, b, True)))
